@@ -718,16 +718,20 @@ example :
 
 /-- The constants the model is written against have the values the statements above were read
 with: 100 retries; war/ear/rar; "provided"; "management"; "jar"; the exclusion wildcards; the
-attribute keys of `dep`. A change of any of them in /repo breaks this theorem. -/
+attribute keys of `dep`. A change of any of them in /repo breaks this theorem. The two tables
+the model only tests membership in (`includesDependenciesTypes`, `exclusionSeparators`) are
+pinned as sets (permutation + no duplicate): the order in which /repo writes the comparisons is
+immaterial. -/
 theorem consts_tie :
     C07Consts.maxRetries = 100 ∧
-    C07Consts.includesDependenciesTypes = [[101, 97, 114], [119, 97, 114], [114, 97, 114]] ∧
+    C07Consts.includesDependenciesTypes.isPerm [[101, 97, 114], [119, 97, 114], [114, 97, 114]] = true ∧
+    C07Consts.includesDependenciesTypes.Nodup ∧
     C07Consts.scopeProvided = [112, 114, 111, 118, 105, 100, 101, 100] ∧
     C07Consts.originManagement = [109, 97, 110, 97, 103, 101, 109, 101, 110, 116] ∧
     C07Consts.defaultArtifactType = [106, 97, 114] ∧
     C07Consts.exclAll = [42, 58, 42] ∧ C07Consts.nameSep = [58] ∧
     C07Consts.exclGroupSuffix = [58, 42] ∧ C07Consts.exclArtifactPrefix = [42, 58] ∧
-    C07Consts.exclusionSeparators = [124, 44] ∧
+    C07Consts.exclusionSeparators.isPerm [124, 44] = true ∧ C07Consts.exclusionSeparators.Nodup ∧
     C07Consts.keyOpt = -2 ∧ C07Consts.keyTest = -4 ∧ C07Consts.keyScope = 3 ∧
     C07Consts.keyClassifier = 4 ∧ C07Consts.keyArtifactType = 5 ∧ C07Consts.keyOrigin = 6 ∧
     C07Consts.keyExclusions = 9 ∧ C07Consts.keySelector = 11 := by decide
